@@ -380,7 +380,7 @@ fn check_main(args: &[String]) {
         if made_progress {
             nontrivial.insert(format!("{}:{}", r["scenario"].as_str().unwrap_or(""), r["sched_digest"].as_str().unwrap_or("")));
         }
-        if samples.len() < 3 && r.get("plan").is_some() && r["verdict"] == "ok" {
+        if samples.len() < 3 && r.get("plan").is_some() {
             samples.push(json!({"seed": r["seed"], "scenario": r["scenario"], "workload": summarise_plan(&r["plan"]), "knobs": r["plan"]["knobs"], "progress": r["progress"], "sample_request": r["samples"].get(0), "trace_excerpt": r["tail"].as_array().map(|t| t.iter().rev().take(12).rev().cloned().collect::<Vec<_>>())}));
         }
         if let Some(n) = r["notes"].as_array() {
@@ -511,8 +511,12 @@ fn check_main(args: &[String]) {
         "replays": replay_paths,
     });
     let _ = std::fs::create_dir_all("/verif/evidence");
-    if let Err(e) = std::fs::write(format!("/verif/evidence/{}.json", prop), serde_json::to_vec_pretty(&ev).unwrap()) {
-        harness_error(&format!("cannot write evidence: {}", e));
+    // development aid: runs against a deliberately broken tree (tools/try_patch.sh, tools/seeded_regress.sh,
+    // tools/known_witness.sh) must not overwrite the evidence of the real tree; never set by a registered command
+    if std::env::var("VERIF_NO_EVIDENCE").is_err() {
+        if let Err(e) = std::fs::write(format!("/verif/evidence/{}.json", prop), serde_json::to_vec_pretty(&ev).unwrap()) {
+            harness_error(&format!("cannot write evidence: {}", e));
+        }
     }
     println!(
         "{}: {} runs, {} distinct non-trivial schedules, {:.0} simulated s, {:.1} s wall, {} runs/h, violations={} known={} -> exit {}",
